@@ -139,7 +139,7 @@ func rootList(m map[string]bool) string { return strings.Join(hv.SortedKeys(m), 
 // every suggestion; the expression kinds strip only that of "Unknown variable".
 var stripAllSuggestions bool
 
-var didYouMean = regexp.MustCompile(` Did you mean "[^"]*"\?`)
+var didYouMean = regexp.MustCompile(` Did you mean [^?]*\?`)
 
 // diagLines prints severity, summary, detail (minus the scope-dependent name
 // suggestion of "Unknown variable") and subject of each diagnostic.
